@@ -742,6 +742,9 @@ func vfc07GenMatcher(rng *rand.Rand, name string, vals []string) vfc07M {
 		if rng.Intn(5) == 0 {
 			out = append(out, "missing")
 		}
+		if rng.Intn(4) == 0 {
+			out = append(out, out[0]) // the same alternative twice: a|b|a
+		}
 		return out
 	}
 	type mk struct {
@@ -859,6 +862,28 @@ func vfc07GenMatchersMulti(rng *rand.Rand, u *vfc07Universe, extProb float64) []
 		}
 	}
 	return ms
+}
+
+// vfc07GenMatchersSameName draws 2..3 matchers that all constrain one stored label (they end up
+// in one posting group and are merged key by key), optionally plus one matcher on another name.
+func vfc07GenMatchersSameName(rng *rand.Rand, u *vfc07Universe) []vfc07M {
+	name := u.names[rng.Intn(len(u.names))]
+	vals := u.values[name]
+	if rng.Intn(4) != 0 && len(vals) > 2 {
+		// the matchers talk about the same one or two values, so that they really interact
+		i, j := rng.Intn(len(vals)), rng.Intn(len(vals))
+		vals = []string{vals[i], vals[j]}
+	}
+	var out []vfc07M
+	for i := 0; i < 2+rng.Intn(2); i++ {
+		out = append(out, vfc07GenMatcher(rng, name, vals))
+	}
+	if rng.Intn(3) == 0 {
+		other := u.names[rng.Intn(len(u.names))]
+		out = append(out, vfc07GenMatcher(rng, other, u.values[other]))
+	}
+	rng.Shuffle(len(out), func(i, j int) { out[i], out[j] = out[j], out[i] })
+	return out
 }
 
 func vfc07GenMatchersN(rng *rand.Rand, u *vfc07Universe, extProb float64, n int) []vfc07M {
